@@ -146,6 +146,38 @@ theorem concurrent_save_safe_fails :
     (run true (initSys none) evs).log = [.saved, .refused] := by
   refine ⟨by decide, by decide, by decide, by decide, by decide⟩
 
+/-- THE INVARIANT for EVERY saver the server has, with the save lock of b09a77b: SAVE, BGSAVE, the
+    auto-save thread calling `bgsave` at any moment (also in the middle of a SAVE, which the flag does
+    not prevent), and SHUTDOWN's save (which looks at no flag at all).  Savers wait for the lock in any
+    number and get the lock in any order; whichever of their writes fail — at EVERY instant the dump
+    name is absent or holds a file that some completed save wrote in full (or the initial one).
+    No hypothesis on the schedule. -/
+theorem dump_always_complete_or_absent_locked (Good : Bytes → Prop) (old : Option Bytes) (evs : List EvL)
+    (hold : ∀ b, old = some b → Good b) (hjobs : jobsGoodL Good evs) :
+    ∀ b, dumpContent (runL (initSysL old) evs).core.fs = some b → Good b := by
+  intro b hb
+  have := (invL_run (Good := Good) evs (initSysL old) (invL_init Good old hold) hjobs).core
+  unfold dumpContent at hb
+  cases hd : (runL (initSysL old) evs).core.fs.dump with
+  | none => rw [hd] at hb; cases hb
+  | some i =>
+    rw [hd] at hb
+    simp at hb
+    rw [← hb]
+    exact this.dump i hd
+
+/-- non-vacuity, and the schedule of `concurrent_save_safe_fails` with the lock: a background save has
+    opened the temporary file; SHUTDOWN's save is started, cannot get the lock while the lock is held
+    (`grant` changes nothing), the background save completes, then the second save runs alone: both
+    succeed and the dump is the second one's complete file. -/
+example :
+    let evs : List EvL := [.bgsave ⟨[[1, 2, 3]], none⟩, .grant 0, .step, .shutdown ⟨[[9, 9, 9, 9, 9]], none⟩,
+      .grant 0, .step, .step, .grant 0, .step, .step, .step]
+    dumpContent (runL (initSysL none) evs).core.fs = some [9, 9, 9, 9, 9] ∧
+    (runL (initSysL none) evs).core.log = [.saved, .saved] ∧ (runL (initSysL none) evs).flag = false ∧
+    dumpContent (runL (initSysL none) (evs.take 7)).core.fs = some [1, 2, 3] := by
+  refine ⟨by decide, by decide, by decide, by decide⟩
+
 /-! ### (2) a snapshot taken while clients keep writing -/
 
 /-- `per_key_consistent`, with value, TTL and sorted-set members read under one lock: for EVERY
